@@ -421,3 +421,65 @@ SEEDS["C12_guarded_label_clears_when_no_leaf"] = ("C12", [(P, """        for lea
                 clear_treepath_memo()
         return True
 """)], "C12.1")
+
+# ------------------------------------------------------------------------- C16
+SEEDS["C16_variadic_ignores_treepath"] = ("C16", [(A, """                if variadic_dim.treepath:
+                    name = get_treepath_memo() + variadic_dim.name
+                else:
+                    name = variadic_dim.name""", """                name = variadic_dim.name""")], "C16.2")
+SEEDS["C16_single_key_bare_name"] = ("C16", [(A, """                cls_size = single_memo[name]
+            except KeyError:
+                single_memo[name] = obj_size""", """                cls_size = single_memo[cls_dim.name]
+            except KeyError:
+                single_memo[cls_dim.name] = obj_size""")], "C16.2")
+SEEDS["C16_treepath_polarity_swapped"] = ("C16", [(A, """            if cls_dim.treepath:
+                name = get_treepath_memo() + cls_dim.name
+            else:
+                name = cls_dim.name""", """            if not cls_dim.treepath:
+                name = get_treepath_memo() + cls_dim.name
+            else:
+                name = cls_dim.name""")], "C16.2")
+SEEDS["C16_label_without_index"] = ("C16", [(S, """        _treepath_storage.value = f"(Leaf {index} in structure {structure}) \"""", """        _treepath_storage.value = f"(Leaf in structure {structure}) \"""")], "C16.3")
+SEEDS["C16_label_identifier_like"] = ("C16", [(S, """        _treepath_storage.value = f"(Leaf {index} in structure {structure}) \"""", """        _treepath_storage.value = f"leaf{index}_{structure}_\""""), (S, """        _treepath_storage.value = f"~~delete~~({structure}) \"""", """        _treepath_storage.value = f"delete_{structure}_\"""")], "C16.3")
+SEEDS["C16_label_constant_index"] = ("C16", [(P, "set_treepath_memo(leaf_index, cls.structure)", "set_treepath_memo(0, cls.structure)")], "C16.3")
+SEEDS["C16_get_unset_returns_empty"] = ("C16", [(S, """    if not hasattr(_treepath_storage, "value") or _treepath_storage.value is None:
+        raise AnnotationError(
+            "Cannot use `?` annotations, e.g. `Shaped[Array, '?foo']`, except "
+            "when contained with structured `PyTree` annotations, e.g. "
+            "`PyTree[Shaped[Array, '?foo'], 'T']`."
+        )
+    return _treepath_storage.value""", """    if not hasattr(_treepath_storage, "value") or _treepath_storage.value is None:
+        return \"\"
+    return _treepath_storage.value""")], "C16")
+SEEDS["C16_set_when_set_overwrites"] = ("C16", [(S, """    if hasattr(_treepath_storage, "value") and _treepath_storage.value is not None:
+        raise AnnotationError(""", """    if hasattr(_treepath_storage, "value") and _treepath_storage.value is None:
+        raise AnnotationError(""")], "C16.4")
+SEEDS["C16_set_raises_valueerror"] = ("C16", [(S, """    if hasattr(_treepath_storage, "value") and _treepath_storage.value is not None:
+        raise AnnotationError(""", """    if hasattr(_treepath_storage, "value") and _treepath_storage.value is not None:
+        raise ValueError(""")], "C16.4")
+SEEDS["C16_structureless_clears_label"] = ("C16", [(P, """                if not is_check_leaftype(leaf):
+                    return False
+            else:""", """                if not is_check_leaftype(leaf):
+                    clear_treepath_memo()
+                    return False
+            else:""")], "C16.1")
+SEEDS["C16_flatten_flag_constant_reset"] = ("C16", [(P, FLAT_REGION, """        set_treeflatten_memo()
+        try:
+            leaves, structure = jtu.tree_flatten(obj, is_leaf=is_flatten_leaftype)
+        finally:
+            clear_treeflatten_memo()
+""")], "C16.1")
+TWINS["C16_twin_key_ifexp_free"] = ("C16", [(A, """            if cls_dim.treepath:
+                name = get_treepath_memo() + cls_dim.name
+            else:
+                name = cls_dim.name""", """            if not cls_dim.treepath:
+                name = cls_dim.name
+            else:
+                name = get_treepath_memo() + cls_dim.name""")])
+SEEDS["C16_set_never_raises"] = ("C16", [(S, """    if hasattr(_treepath_storage, "value") and _treepath_storage.value is not None:
+        raise AnnotationError(
+            "Cannot typecheck annotations of the form "
+            "`PyTree[PyTree[Shaped[Array, '?foo'], 'T'], 'S']` as it is ambiguous "
+            "which PyTree the `?` annotation refers to."
+        )
+    if index is None:""", """    if index is None:""")], "C16.4")
